@@ -10,7 +10,7 @@ Unit = pb.Unit
 
 ID = "C06"
 RULE = ("all ordered same-dimension unit pairs (287) and triples (2267) are enumerated exhaustively with a fixed edge "
-        "magnitude list, and additionally sampled with generated log-uniform magnitudes +-(1e-9..1e9) (angles kept "
+        "magnitude list, and additionally sampled with generated log-uniform magnitudes +-(1e-9..1e9, and 1e-200..1e200) (angles kept "
         "inside one turn, tangent units inside +-1.5 rad, temperatures above absolute zero); a case is non-trivial "
         "when the units differ and the magnitude is non-zero; distinct = distinct (units, magnitude) tuples")
 ASSUMPTIONS = [
@@ -159,7 +159,7 @@ def _enum_triples():
 
 
 def _mag():
-    logm = st.floats(min_value=-9.0, max_value=9.0, allow_nan=False)
+    logm = st.one_of(st.floats(min_value=-9.0, max_value=9.0, allow_nan=False), st.floats(min_value=-200.0, max_value=200.0, allow_nan=False))
     return st.one_of(
         st.builds(lambda e, s, m: s * m * 10.0 ** e, logm, st.sampled_from([1.0, -1.0]),
                   st.floats(min_value=1.0, max_value=10.0, exclude_max=True)),
